@@ -1,5 +1,5 @@
 """C06 - proto3 defaults and field presence (D1-D5)."""
-from . import presence
+from . import codec, presence
 from .c09 import rule_L1
 
 PROP = "C06"
@@ -15,7 +15,7 @@ RULE_TEXT = "obligation = (rule, emitter, wire class, scenario) or (rule, functi
 
 
 def run(ctx) -> None:
-    for name, fn in (("D1", presence.rule_D1), ("D2", presence.rule_D2), ("D3", presence.rule_D3), ("D4", presence.rule_D4), ("D5", presence.rule_D5)):
+    for name, fn in (("D1", presence.rule_D1), ("D2", presence.rule_D2), ("D3", presence.rule_D3), ("D4", presence.rule_D4), ("D5", presence.rule_D5), ("T5", codec.rule_T5)):
         ctx.rules_run.append(name)
         fn(ctx)
     ctx.oracle("proto3 field presence table (embedded): implicit fields skip the default; optional / oneof / wrapper / message presence is explicit")
